@@ -80,6 +80,7 @@ type vfProdCase struct {
 	Delays    map[string][]int     `json:"delays,omitempty"` // hook point -> delay class per occurrence (mod len)
 	FlushProbe bool                `json:"flushProbe,omitempty"` // C16: before closing, wait until every buffered message was sent (a configured trigger must fire without further input)
 	C12       *vfC12Ctl            `json:"c12,omitempty"`
+	StormDelays bool               `json:"stormDelays,omitempty"`
 	Sync      int                  `json:"sync,omitempty"`   // >0: SyncProducer variant driven from this many goroutines
 	SyncBatch bool                 `json:"syncBatch,omitempty"`
 }
@@ -585,6 +586,10 @@ func vfExecProd(c *vfProdCase) *vfProdRun {
 			parts := strings.Split(st.Key, "/")
 			pn, _ := strconv.Atoi(parts[1])
 			run.sim.moveLeader(parts[0], int32(pn), int32(st.A))
+		case "leaderless":
+			parts := strings.Split(st.Key, "/")
+			pn, _ := strconv.Atoi(parts[1])
+			run.sim.moveLeader(parts[0], int32(pn), -1)
 		case "brokerDown":
 			run.sim.setBrokerUp(int32(st.A), false)
 		case "brokerUp":
